@@ -22,6 +22,9 @@ import (
 type pairPlan struct {
 	opt     OptionSet
 	batches []*batchIn
+	want    []uint64 // hash of the reference model's items per batch
+	// consumer options: "" (NewConsumer()), "limit-small", "limit-large", "meter"
+	consumerOpt string
 }
 
 func cloneBatch(b *batchIn) *batchIn {
@@ -68,7 +71,16 @@ func itemsHash(items []Item) uint64 {
 
 func (ps *pairState) create() {
 	ps.p = arrow_record.NewProducerWithOptions(ps.plan.opt.build(nil, nil)...)
-	ps.c = arrow_record.NewConsumer()
+	switch ps.plan.consumerOpt {
+	case "limit-small":
+		ps.c = arrow_record.NewConsumer(arrow_record.WithMemoryLimit(48 << 10))
+	case "limit-large":
+		ps.c = arrow_record.NewConsumer(arrow_record.WithMemoryLimit(512 << 20))
+	case "meter":
+		ps.c = arrow_record.NewConsumer(arrow_record.WithMeterProvider(&recMeterProvider{}))
+	default:
+		ps.c = arrow_record.NewConsumer()
+	}
 }
 
 func (ps *pairState) encodeNext() {
@@ -107,6 +119,14 @@ func (ps *pairState) close() {
 	_ = ps.p.Close()
 	_ = ps.c.Close()
 	ps.closed = true
+}
+
+func consumerOpts(plans []*pairPlan) []string {
+	var out []string
+	for _, p := range plans {
+		out = append(out, p.consumerOpt)
+	}
+	return out
 }
 
 func firstLine(s string) string {
@@ -163,8 +183,11 @@ func (r *run) runIndependence(e *Engine) {
 		hp.nBatches = 1 + t.Weighted(core.Gen, 3, 3, 2, 2, 1)
 		hp.ramp = []string{"", "small"}[t.Weighted(core.Gen, 4, 1)]
 		for i := 0; i < hp.nBatches; i++ {
-			pp.batches = append(pp.batches, r.genBatch(hp, i))
+			b := r.genBatch(hp, i)
+			pp.batches = append(pp.batches, b)
+			pp.want = append(pp.want, itemsHash(b.canon()))
 		}
+		pp.consumerOpt = []string{"", "limit-small", "limit-large", "meter"}[t.Weighted(core.Cfg, 5, 2, 1, 1)]
 		plans = append(plans, pp)
 	}
 	solo := make([]pairOut, nPairs)
@@ -246,6 +269,27 @@ func (r *run) runIndependence(e *Engine) {
 		}
 	}
 	for k := range states {
+		// a stream with a default (or generous) consumer must decode to what
+		// the reference model says, whatever other instances exist or existed
+		if plans[k].consumerOpt != "limit-small" {
+			out := states[k].out
+			bad := ""
+			if len(out.errs) > 0 {
+				bad = fmt.Sprintf("errors %v", out.errs)
+			} else {
+				for i := range plans[k].want {
+					if i >= len(out.decoded) || out.decoded[i] != plans[k].want[i] {
+						bad = fmt.Sprintf("batch %d does not decode to the encoded telemetry", i)
+						break
+					}
+				}
+			}
+			if bad != "" {
+				r.feats["pairs"] = fmt.Sprint(nPairs)
+				r.violate("C16", "same-as-solo", fmt.Sprintf("stream %d of %d (consumer option %q; other streams use %v): %s", k, nPairs, plans[k].consumerOpt, consumerOpts(plans), bad))
+				break
+			}
+		}
 		if d := sameOut(solo[k], states[k].out); d != "" {
 			r.feats["pairs"] = fmt.Sprint(nPairs)
 			r.violate("C16", "same-as-solo", fmt.Sprintf("stream %d of %d (options %+v): %s", k, nPairs, plans[k].opt, d))
